@@ -378,9 +378,9 @@ def gen_problem(rng):
                             dt_cont=rng.choice([0.0, 5.0]), htc=1.0, price=5.0 + i))
     p = dict(streams=streams, utilities=uts)
     k = rng.random()
-    if k < 0.15:
+    if k < 0.25:
         p["options"] = rng.choice([{"DO_BALANCED_CC": False}, {"DO_DIRECT_OPERATION_TARGETING": True}, {"UTILITY_PRICE": 50.0},
-                                   {"DO_VERTICAL_GCC": True}])
+                                   {"DO_VERTICAL_GCC": True}, {"DECIMAL_PLACES": 4}, {"DECIMAL_PLACES": 1}, {"DT_CONT": 7.5}])
     elif k < 0.40:                                 # an explicit zone tree consistent with the labels' first components
         tops = sorted({s["zone"].split("/")[0] for s in streams})
         shape = rng.choice(["typed", "generic_nested", "root_labelled"])
@@ -483,9 +483,14 @@ PB = dict(streams=[_s("P", "H1", 180.0, 60.0, 240.0, 10.0), _s("Q", "C1", 30.0, 
           utilities=[])
 
 
+PC = dict(PB, options={"DECIMAL_PLACES": 4})       # an option the graph code reads: must not outlive its own call
+
+
 def corpus():
     N = ["Untitled", "Project", "Other"]
     return [
+        ("options of an earlier call must not outlive it [B(DECIMAL_PLACES=4); A]",
+         dict(problems=[PC, PA], names=N[:2], objects=[], calls=[dict(op="dict", pn=1, p=0), dict(op="dict", pn=1, p=1)])),
         ("D5 [A; B] dicts", dict(problems=[PA, PB], names=N[:2], objects=[], calls=[dict(op="dict", pn=1, p=0), dict(op="dict", pn=1, p=1)])),
         ("D6 [m; m] same model object", dict(problems=[PA], names=N[:2], objects=[dict(problem=0)],
                                              calls=[dict(op="model", pn=1, obj=0), dict(op="model", pn=1, obj=0)])),
